@@ -257,6 +257,17 @@ Definition write_rspfile (fs : fstree) (cwd : path) (name content : bytes) : fsr
                    end
   end.
 
+(* what happens between a step leaving the queue and its command being spawned: Work::run creates
+   the directories of the outputs, the worker thread writes the response file (task::run_task) *)
+Definition prepare_step (fs : fstree) (cwd : path) (outs : list bytes) (rsp : option (bytes * bytes)) : fsres :=
+  match create_parent_dirs fs cwd outs with
+  | (Some e, fs1) => (Some e, fs1)
+  | (None, fs1) => match rsp with
+                   | None => (None, fs1)
+                   | Some (n, c) => write_rspfile fs1 cwd n c
+                   end
+  end.
+
 (* ---------------------------------------------------------------------------------------- *)
 (* scripts for the correspondence check: the operations n2 performs before a command runs *)
 
